@@ -125,6 +125,8 @@ fn vk_is_contained_in_n2() {
 fn vk_safe_to_open_table() {
     assert!(!MappingInfo::is_mapped_file_safe_to_open(&Some(OsString::from("/dev/x"))));
     assert!(!MappingInfo::is_mapped_file_safe_to_open(&Some(OsString::from("/dev/"))));
+    // a name the kernel can report need not be UTF-8
+    assert!(!MappingInfo::is_mapped_file_safe_to_open(&Some(OsString::from_vec(vec![b'/', b'd', b'e', b'v', b'/', 0xff, 0xfe]))));
     assert!(MappingInfo::is_mapped_file_safe_to_open(&Some(OsString::from("/devx"))));
     assert!(MappingInfo::is_mapped_file_safe_to_open(&Some(OsString::from("/a"))));
     assert!(MappingInfo::is_mapped_file_safe_to_open(&None));
@@ -183,7 +185,7 @@ fn vk_aggregate_one_line_path() {
 
 #[kani::proof]
 #[kani::stub(alloc::fmt::format, g_format)]
-#[kani::unwind(4)]
+#[kani::unwind(16)]
 fn vk_aggregate_one_line_anonymous_gate() {
     let (s, e): (u64, u64) = (kani::any(), kani::any());
     kani::assume(s < e);
